@@ -37,7 +37,15 @@ func checkHeightUnderLock(c *core.Ctx) {
 		}
 		commits := ir.CallsTo(fn, sb)
 		acqs := ir.CallsTo(fn, gl, tgl)
-		heights := ir.CallsTo(fn, gch)
+		// a read of the current height: GetCurrentBlockHeight itself or a same-package helper that performs it
+		isHeightRead := func(ci ssa.CallInstruction) bool {
+			if ir.CalleeIs(ci, gch) {
+				return true
+			}
+			h := ci.Common().StaticCallee()
+			return h != nil && h != fn && h.Pkg == fn.Pkg && len(ir.CallsTo(h, gch)) > 0 && len(ir.CallsTo(h, sb)) == 0
+		}
+		heights := ir.Calls(fn, isHeightRead)
 		c.Floor("submitBlock calls in "+name, len(commits), 1)
 		c.Floor("lock acquisitions in "+name, len(acqs), 1)
 		c.Floor("current-height reads in "+name, len(heights), 1)
@@ -52,15 +60,23 @@ func checkHeightUnderLock(c *core.Ctx) {
 		var genesis []ir.Edge
 		for _, cd := range ir.Conds(fn) {
 			b, ok := cd.V.(*ssa.BinOp)
-			if !ok || b.Op != token.GTR || !isFieldNamed(b.X, "Height") {
+			if !ok || !isFieldNamed(b.X, "Height") {
 				continue
 			}
-			if k, isK := ir.ConstInt(b.Y); isK && k == 0 {
+			k, isK := ir.ConstInt(b.Y)
+			if !isK {
+				continue
+			}
+			// Height > 0, Height != 0, Height >= 1: the false edge is "genesis"; Height == 0, Height < 1: the true edge
+			switch {
+			case (b.Op == token.GTR || b.Op == token.NEQ) && k == 0, b.Op == token.GEQ && k == 1:
 				genesis = append(genesis, ir.Edge{From: cd.If.Block(), Idx: cd.FalseIdx()})
+			case b.Op == token.EQL && k == 0, b.Op == token.LSS && k == 1:
+				genesis = append(genesis, ir.Edge{From: cd.If.Block(), Idx: cd.TrueIdx()})
 			}
 		}
 		for _, a := range acqs {
-			eng.MustPassCall(c, rule+"(fresh)", fn, "GetCurrentBlockHeight", eng.CallPred(gch), ir.CallSinks(commits, "submitBlock"), "submitBlock after the lock was taken",
+			eng.MustPassCall(c, rule+"(fresh)", fn, "GetCurrentBlockHeight", isHeightRead, ir.CallSinks(commits, "submitBlock"), "submitBlock after the lock was taken",
 				&eng.Opt{Start: a, Cuts: genesis, Fact: "height 0 is the genesis block"})
 		}
 	}
@@ -73,7 +89,7 @@ func checkHeightUnderLock(c *core.Ctx) {
 			// frozen exception: start-up, before any other goroutine exists, on an empty store
 			"(*core/store/ledgerstore.LedgerStoreImp).InitLedgerStoreWithGenesisBlock": true,
 		}
-		for _, caller := range c.P.CG().Callers(fn) {
+		for _, caller := range c.P.EffectiveCallers(fn, func(y *ssa.Function) bool { return allowed[ir.FuncName(y)] }) {
 			nm := ir.FuncName(caller)
 			c.Decide(allowed[nm], rule, caller, "submitBlock is called only from the two lock-holding entry points", c.P.Rel(caller.Pos()), nm)
 		}
